@@ -96,3 +96,27 @@ func init() {
 	register("shutdown2", mkShutdown([]ActorSpec{{Name: "X", Ops: []Op{{Kind: "disc"}}}, {Name: "Y", Ops: []Op{{Kind: "close"}}}}, true))
 	register("shutdown3", mkShutdown([]ActorSpec{{Name: "X", Ops: []Op{{Kind: "disc", Quit: quitLater}}}, {Name: "Y", Ops: []Op{{Kind: "disc", Quit: quitClosed}}}, {Name: "Z", Ops: []Op{{Kind: "close"}}}}, true))
 }
+
+func init() {
+	register("errclass", func() *Scenario {
+		return &Scenario{
+			Config: baseConfig(),
+			Actors: []ActorSpec{
+				{Name: "reader", Reader: &ReaderSpec{Backoff: true}},
+				{Name: "A", Ops: []Op{{Kind: "pub0", Topic: "e/a", Msg: []byte("A-payload"), Quit: quitLater}, {Kind: "pub0r", Topic: "e/b", Msg: []byte("B-payload"), Quit: quitClosed}}},
+				{Name: "B", Ops: []Op{{Kind: "sub", Filters: []string{"e/1", "e/2"}, Quit: quitLater}, {Kind: "unsub", Filters: []string{"e/1"}, Quit: quitOpen}}},
+				{Name: "C", Ops: []Op{{Kind: "ping", Quit: quitLater}, {Kind: "pub1", Topic: "e/c", Msg: []byte("C-payload")}, {Kind: "pub2r", Topic: "e/d", Msg: []byte("D-payload")}}},
+				{Name: "X", Ops: []Op{{Kind: "disc", Quit: quitOpen}}},
+			},
+			SubFail: func(f string) bool { return f == "e/2" },
+			Faults: Faults{WriteCuts: cutsEdge, WriteErr: true, WriteTimeout: true, NoResponse: true, Cut: true, CloseErr: true,
+				Store: map[string]bool{"save": true}, DialErr: true},
+			Horizon: 2500,
+			Final: func(w *World) {
+				w.monitorWire()
+				w.monitorRequests()
+				w.monitorDelivery("C01")
+			},
+		}
+	})
+}
